@@ -221,7 +221,14 @@ pub fn monitor(c: &Cfg, r: &crate::run::Run, n: usize, has_terminal: bool, viols
                     let exact = last.map(|t| t.to_bits() == c.xend.to_bits()).unwrap_or(false) && (far_end.to_bits() == c.xend.to_bits());
                     // (the same for a run that gives up with StepSizeTooSmall a few ulps before xend: the remaining
                     // sliver is below the solver's own step-size floor - e.g. Radau at x0 = 0.3 on a span of 1e-12)
-                    let covered = if other == Status::NeedLargerNMax || other == Status::StepSizeTooSmall { exact } else { covered_by_samples };
+                    // - but not when the last sample is xend to the rounding of a single addition (two units in the last
+                    // place): that is the closing step every method takes, and the run has covered the interval
+                    let within_2ulp = last.map(|t| t.is_finite() && c.xend.is_finite() && (t > 0.0) == (c.xend > 0.0) && (t.to_bits() as i64 - c.xend.to_bits() as i64).abs() <= 2).unwrap_or(false);
+                    let covered = match other {
+                        Status::NeedLargerNMax => exact,
+                        Status::StepSizeTooSmall => exact || within_2ulp,
+                        _ => covered_by_samples,
+                    };
                     if c.t_eval.is_none() && covered && s.t.len() > 1 {
                         v("covered-not-success", format!("the last sample is xend but status is {:?}", other));
                     }
